@@ -240,7 +240,7 @@ def _make_world(seed, kind):
     if kind == "events":
         return c14.event_world(seed, twins=False), False      # exact positional ties are outside the quantifier of C11
     if kind == "noise-free":
-        w = world2.rich_world(seed, n_chroms=3, genes_per_chrom=3, reads_per_t=0, hidden_cov=0, multimappers=False, unmapped=0, extra_len=125000)
+        w = world2.rich_world(seed, n_chroms=3, genes_per_chrom=3, reads_per_t=0, hidden_cov=0, multimappers=False, unmapped=0, extra_len=140000)
         rng = w.rng
         # unannotated isoforms whose first (last) exon begins (ends) in the middle of an intron of the annotated isoform, on both strands:
         # the left-hand and the right-hand version are mirror images of each other
@@ -342,6 +342,31 @@ def _make_world(seed, kind):
                     w.make_read(chrom, ex, polya=30 if (strand == "+" and three_prime_complete) else 0, polyt=30 if (strand == "-" and three_prime_complete) else 0,
                                 flag=0 if strand == "+" else 16, truth={"src": g.id + ".h1", "class": "truncated-on-one-side"})
                 p += 3100 + 2500
+        # unannotated exon-skipping isoforms that share their 3'-terminal intron with an annotated four-exon isoform and whose tailed reads
+        # end 7 bp beyond the annotated end: the model's 3' end is compared with the annotated end position (both strands)
+        for ci, chrom in enumerate(w.chrom_order):
+            p = max([g.end for g in w.genes + thin if g.chrom == chrom] + [1000]) + 2500
+            for k, strand in enumerate("+-"):
+                if p + 6000 > w.chrom_len(chrom):
+                    break
+                a = [(p, p + 499), (p + 1000, p + 1199), (p + 1700, p + 1949), (p + 2500, p + 2999)]
+                g = Gene("SNAP%d_%d" % (ci + 1, k + 1), chrom, strand)
+                g.transcripts.append(Transcript(g.id + ".t1", g.id, chrom, strand, a, True, "snap-host"))
+                if strand == "+":
+                    nov = [a[0], a[2], (a[3][0], a[3][1] + 7)]
+                else:
+                    nov = [(a[0][0] - 7, a[0][1]), a[1], a[3]]
+                g.hidden.append(Transcript(g.id + ".h1", g.id, chrom, strand, nov, False, "end-7bp-beyond-annotated-end"))
+                for t in g.transcripts + g.hidden:
+                    for intr in t.introns:
+                        w.plant_sites(chrom, intr, strand)
+                thin.append(g)
+                tail = {"polya": 30} if strand == "+" else {"polyt": 30, "flag": 16}
+                for _ in range(6):
+                    w.make_read(chrom, list(a), truth={"src": g.id + ".t1", "class": "exact"}, **tail)
+                for _ in range(8):
+                    w.make_read(chrom, list(nov), truth={"src": g.id + ".h1", "class": "end-7bp-beyond-annotated-end"}, **tail)
+                p += 3000 + 2500
         # unannotated three-exon transcripts seen by only two full-length reads (too few to be reported) plus unspliced 3' fragments with a
         # tail lying inside their 3'-terminal exon (on both strands; the runs on this world report novel unspliced transcripts), and
         # free-standing unspliced tailed loci of both strands
